@@ -24,7 +24,7 @@ CHUNK = 60  # 4 chunks
 POS = {"first": 5, "middle": 130, "last": 235}
 
 DATA_FAULTS = ["nan_ra", "inf_dec", "nan_weight", "inf_redshift", "pid_-1", "pid_32768", "pid_40000", "pid_nan", "pid_inf",
-               "fail_worker", "fail_writer"]
+               "fail_worker", "fail_writer", "fail_reader"]
 STRUCT_FAULTS = ["missing_column", "unequal_length", "unequal_length_longer", "no_patch_method", "empty_centre_first", "empty_centre_middle",
                  "empty_centre_last"]
 DIR_FAULTS = ["exists_valid_no_overwrite", "overwrite_valid", "overwrite_empty_dir", "overwrite_foreign_dir",
@@ -87,7 +87,7 @@ class C09(Check):
     rule = (
         "enumerated fault matrix: data faults {NaN/inf in ra/dec/weight/redshift, patch index -1/32768/40000, exception "
         "injected in the worker-side split and in the writer} x position {first, middle, last chunk, only chunk} x "
-        "source {DataFrame, HDF5}; structural faults {missing column, columns of unequal length (HDF5), no patch method, a "
+        "source {DataFrame, HDF5; thorough: FITS, Parquet}; structural faults {missing column, columns of unequal length (HDF5), no patch method, a "
         "centre without objects (first/middle/last)}; directory faults {cache exists without overwrite, overwrite over a "
         "valid catalog / empty directory / directory with foreign files / regular file, parent missing, parent is a file} "
         "and the fault-free control; each for workers {1, 2, 4} (quick: {1, 2}) in a forked child under a quiescence "
@@ -111,10 +111,11 @@ class C09(Check):
         out = []
         for fault in DATA_FAULTS:
             positions = ["middle"] if q else ["first", "middle", "last", "only"]
-            if q and fault in ("nan_ra", "fail_worker", "fail_writer", "pid_-1"):
+            if q and fault in ("nan_ra", "fail_worker", "fail_writer", "fail_reader", "pid_-1"):
                 positions = ["first", "last"]
             for pos in positions:
-                for source in (["dataframe"] if q and fault not in ("nan_ra", "nan_weight") else ["dataframe", "hdf5"]):
+                for source in (["dataframe"] if q and fault not in ("nan_ra", "nan_weight") else
+                               (["dataframe", "hdf5"] if q else ["dataframe", "hdf5", "fits", "parquet"])):
                     if fault.startswith("pid_") or fault.startswith("fail"):
                         modes = ["index"] if fault.startswith("pid_") else ["centres"]
                     else:
@@ -196,7 +197,7 @@ class C09(Check):
             cols["patch"][row] = np.nan if fault == "pid_nan" else np.inf
         elif fault.startswith("pid_"):
             cols["patch"][row] = int(fault.split("_")[1])
-        elif fault in ("fail_worker", "fail_writer"):
+        elif fault in ("fail_worker", "fail_writer", "fail_reader"):
             marker = float(np.deg2rad(cols["ra"][row]))
         centres = centres_deg.copy()
         if fault.startswith("empty_centre"):
@@ -241,6 +242,12 @@ class C09(Check):
             write_hdf(hpath, cols, skip="z" if fault == "missing_column" else None,
                       short="w" if fault == "unequal_length" else None,
                       long="z" if fault == "unequal_length_longer" else None)
+        elif source in ("fits", "parquet"):
+            from vlib import sources as vsources
+
+            hpath = work / ("input" + vsources.EXT[source])
+            fcols = {k: v for k, v in cols.items() if not (fault == "missing_column" and k == "z")}
+            vsources.write_source(source, hpath, fcols, row_group_size=50)
         expected = rows_digest(np.deg2rad(cols["ra"]), np.deg2rad(cols["dec"]), cols["w"], cols["z"])
 
         def run():
@@ -252,7 +259,19 @@ class C09(Check):
             if mode == "centres" and fault != "no_patch_method":
                 kw["patch_centers"] = AngularCoordinates(np.deg2rad(centres))
             if marker is not None:
-                if fault == "fail_worker":
+                if fault == "fail_reader":
+                    from yaw.catalog import readers
+
+                    orig_next = readers.DataChunkReader.__next__
+
+                    def failing_next(self_):
+                        chunk_ = orig_next(self_)
+                        if chunk_ is not None and np.any(chunk_["ra"] == marker):
+                            raise RuntimeError("injected reader fault")
+                        return chunk_
+
+                    readers.DataChunkReader.__next__ = failing_next
+                elif fault == "fail_worker":
                     orig = ycat.split_into_patches
 
                     def failing_split(chunk_, centers_):
@@ -272,7 +291,7 @@ class C09(Check):
                     ycat.CatalogWriter.process_patches = failing_pp
             if source == "dataframe":
                 cat = Catalog.from_dataframe(target, pd.DataFrame(cols), **kw)
-            elif source == "hdf5":
+            elif source in ("hdf5", "fits", "parquet"):
                 cat = Catalog.from_file(target, hpath, **kw)
             else:
                 gen_ = BoxRandoms(9.0, 17.0, -6.0, -4.0, weights=cols["w"], redshifts=cols["z"], seed=3)
